@@ -101,6 +101,8 @@ def make_body(g: Grammar, n: int, oracle: str):
                 r = r or _typed_dict_limit(ty, k, vals)
             if r is None and k > 0:
                 r = _td_only_for_str_dicts(merged, vals)
+                for v, ty in zip(vals, tys):
+                    r = r or _td_only_for_str_dicts(ty, [v])
             return check(r is None, lambda: f"{r}; type {O.show_type(merged)} from {[show(v) for v in vals]} (k={int(k)})")
         raise AssertionError(oracle)
 
